@@ -80,6 +80,44 @@ def check_apply_axis(ctx):
     outs = symeval.Evaluator(m).run(f)
     rets = [o for o in outs if o.kind == "return"]
     ctx.need(len(rets) >= 6, "%s: expected >= 6 dispatch paths" % site)
+    # by cases: with the axis fixed to All() (and to None) the whole array is handed back, and nothing else happens
+    for label, val in (("All()", form.apply("call:verif.axis.All", [])), ("None", Rat.sym("None"))):
+        evc = symeval.Evaluator(m)
+        evc.merge_ifs = True
+        try:
+            # (that All is neither a time / lead-time derived axis nor location-like is established by the category rule above)
+            outs_c = evc.run(f, env={"axis": val, "axis.is_location_like": Rat.const(0), "axis.is_time_like": Rat.const(0)})
+        except symeval.Undecided:
+            outs_c = []
+
+        def known_membership(at):
+            if at.func in ("in", "notin") and len(at.args) == 2 and isinstance(at.args[0], Rat) and at.args[0].key() == val.key():
+                coll = at.args[1]
+                res = None
+                if isinstance(coll, Rat) and coll.key() in ("call:verif.axis.get_time_axes()", "call:verif.axis.get_leadtime_axes()"):
+                    res = False
+                elems = coll if isinstance(coll, tuple) else (coll.as_atom("pylist").args[0] if isinstance(coll, Rat) and coll.as_atom("pylist") is not None else None)
+                if elems is not None and all(isinstance(e_, Rat) and e_.as_atom() is not None and e_.as_atom().func.startswith("call:verif.axis.") for e_ in elems):
+                    res = any(e_.key() == val.key() for e_ in elems)
+                if res is not None:
+                    return Rat.const(1 if (res == (at.func == "in")) else 0)
+            return None
+        for o in outs_c:
+            if o.kind == "return" and isinstance(o.value, Rat):
+                try:
+                    o.value = form.map_atoms(o.value, known_membership)
+                except form.Undefined:
+                    pass
+        rc = [o for o in outs_c if o.kind == "return"]
+        ec = [o for o in outs_c if o.kind in ("error", "raise")]
+        if label == "None" and not rc and not ec:
+            continue
+        ok = len(rc) >= 1 and all(isinstance(o.value, Rat) and o.value.key() == "$array" for o in rc) and not ec
+        if label == "None" and not ok:
+            # axis None is only reachable if an attribute of None is not touched first; undecided rather than wrong
+            continue
+        ctx.ob("C11.1", site, ok, "axis %s: the whole array is returned unchanged" % label, loc=prog.loc(m, f),
+               msg="with axis %s _apply_axis returns %s%s instead of the array itself" % (label, [str(o.value)[:80] for o in rc], " or stops with an error" if ec else ""))
     arr = S("array")
     ai = S("axis_index")
     sl = ("slice", "None", "None", "None")
